@@ -53,12 +53,19 @@ Proof.
 Qed.
 
 (* every place of the specification is enumerated by collect ... *)
-Lemma collect_roots_complete : forall s p, holds_ref s p -> In p (collect_roots s).
+Lemma frames_consistent_b_spec : forall s, frames_consistent_b s = true <-> frames_consistent s.
 Proof.
-  intros s p H. unfold collect_roots. rewrite !in_app_iff.
+  intro s. unfold frames_consistent_b, frames_consistent. rewrite forallb_forall. split.
+  - intros H f Hf. apply N.eqb_eq. exact (H f Hf).
+  - intros H f Hf. apply N.eqb_eq. exact (H f Hf).
+Qed.
+
+Lemma collect_roots_complete : forall s p, frames_consistent s -> holds_ref s p -> In p (collect_roots s).
+Proof.
+  intros s p Hcons H. unfold collect_roots. rewrite !in_app_iff.
   destruct H as [f k p Hf Hlo Hhi Hn | f Hf | f c Hf Hc | p Hp | p Hp | p Hp | p Hp].
   - left. apply in_flat_map. exists f. split; [exact Hf|]. unfold frame_roots. apply in_or_app. left.
-    apply In_ptrs. apply In_window. exists k. auto.
+    apply In_ptrs. apply In_window. exists k. rewrite (Hcons f Hf). auto.
   - left. apply in_flat_map. exists f. split; [exact Hf|]. unfold frame_roots. apply in_or_app. right.
     left. reflexivity.
   - right. left. apply In_running_closures. exists f. auto.
@@ -69,14 +76,14 @@ Proof.
 Qed.
 
 (* ... and collect roots nothing else *)
-Lemma collect_roots_sound : forall s p, In p (collect_roots s) -> holds_ref s p.
+Lemma collect_roots_sound : forall s p, frames_consistent s -> In p (collect_roots s) -> holds_ref s p.
 Proof.
-  intros s p H. unfold collect_roots in H. rewrite !in_app_iff in H.
+  intros s p Hcons H. unfold collect_roots in H. rewrite !in_app_iff in H.
   destruct H as [H|[H|[H|[H|[H|H]]]]].
   - apply in_flat_map in H. destruct H as (f & Hf & H). unfold frame_roots in H.
     apply in_app_or in H. destruct H as [H|[<-|[]]].
     + apply In_ptrs in H. apply In_window in H. destruct H as (k & Hlo & Hhi & Hn).
-      exact (hr_live_variable s f k p Hf Hlo Hhi Hn).
+      rewrite (Hcons f Hf) in Hhi. exact (hr_live_variable s f k p Hf Hlo Hhi Hn).
     + exact (hr_running_function s f Hf).
   - apply In_running_closures in H. destruct H as (f & Hf & Hc). exact (hr_running_closure s f p Hf Hc).
   - exact (hr_global s p H).
@@ -85,14 +92,14 @@ Proof.
   - exact (hr_current_upvalue s p H).
 Qed.
 
-Lemma program_reachable_iff : forall s h i,
-  program_reachable s h i <-> reachable_spec h (collect_roots s) i.
+Lemma program_reachable_iff : forall s h i, frames_consistent s ->
+  (program_reachable s h i <-> reachable_spec h (collect_roots s) i).
 Proof.
-  intros s h i. unfold program_reachable, reachable_spec. split.
+  intros s h i Hcons. unfold program_reachable, reachable_spec. split.
   - intros (r & Hr & Hre). revert Hre. apply reach_mono.
-    intros x [<-|[]]. exact (collect_roots_complete s r Hr).
+    intros x [<-|[]]. exact (collect_roots_complete s r Hcons Hr).
   - intro H. induction H as [r o Hin Hg | i o j o' _ IH Hg Hj Hg'].
-    + exists r. split; [exact (collect_roots_sound s r Hin)|].
+    + exists r. split; [exact (collect_roots_sound s r Hcons Hin)|].
       apply (reach_root edges_spec h [r] r o); [left; reflexivity|exact Hg].
     + destruct IH as (r & Hr & Hre). exists r. split; [exact Hr|].
       exact (reach_step edges_spec h [r] i o j o' Hre Hg Hj Hg').
@@ -123,7 +130,7 @@ Qed.
 
 (* the collection as the VM runs it: everything the program can reach survives unchanged, exactly
    the rest is freed, the snapshots are gone, every place still refers to what it referred to *)
-Lemma vm_collect_safe_lemma : forall s h,
+Lemma vm_collect_safe_lemma : forall s h, frames_consistent s ->
   exists s' h', vm_collect s h = Some (s', h')
     /\ (forall i o, program_reachable s h i -> get h i = Some o -> get h' i = Some o)
     /\ (forall i, ~ program_reachable s h i -> get h' i = None)
@@ -131,14 +138,32 @@ Lemma vm_collect_safe_lemma : forall s h,
     /\ (forall p, holds_ref s' p <-> holds_ref s p)
     /\ (forall p o, holds_ref s' p -> get h p = Some o -> get h' p = Some o).
 Proof.
-  intros s h. unfold vm_collect.
+  intros s h Hcons. unfold vm_collect.
   destruct (collect_safe_lemma h (collect_roots s)) as (h' & Hc & Hk & Hf). rewrite Hc.
   eexists. eexists. split; [reflexivity|]. split; [|split; [|split; [reflexivity|split]]].
-  - intros i o Hp Hg. apply Hk; [apply program_reachable_iff; exact Hp|exact Hg].
-  - intros i Hn. apply Hf. intro Hr. apply Hn. apply program_reachable_iff. exact Hr.
+  - intros i o Hp Hg. apply Hk; [apply program_reachable_iff; assumption|exact Hg].
+  - intros i Hn. apply Hf. intro Hr. apply Hn. apply program_reachable_iff; assumption.
   - intro p. apply holds_ref_cache_irrelevant.
   - intros p o Hp Hg. apply holds_ref_cache_irrelevant in Hp. apply Hk; [|exact Hg].
-    apply (reach_root edges_spec h (collect_roots s) p o); [exact (collect_roots_complete s p Hp)|exact Hg].
+    apply (reach_root edges_spec h (collect_roots s) p o); [exact (collect_roots_complete s p Hcons Hp)|exact Hg].
+Qed.
+
+(* why the premise is there (the shape of seeded change C03_r3_2: a frame built from a stale
+   call-site cache entry records 0 registers): the string in the callee's register 1 is a live
+   variable of the program and is freed *)
+Lemma frame_count_premise_needed_lemma :
+  exists s h i o s' h',
+    ~ frames_consistent s /\ program_reachable s h i /\ get h i = Some o
+    /\ vm_collect s h = Some (s', h') /\ get h' i = None.
+Proof.
+  exists (mkVm [None; Some 1; None] [mkFrame 0 1 0 None 1; mkFrame 1 0 0 None 2] [] [] [] [] []),
+         (mkHeap [Some (OFunction 7 (FnC [] [])); Some (OString 8)] []), 1, (OString 8).
+  eexists. eexists. split; [|split; [|split; [reflexivity|split; [vm_compute; reflexivity|vm_compute; reflexivity]]]].
+  - intro H. specialize (H (mkFrame 1 0 0 None 2)). cbn in H.
+    assert (Hx : 0 = 2) by (apply H; right; left; reflexivity). discriminate.
+  - exists 1. split.
+    + apply (hr_live_variable _ (mkFrame 1 0 0 None 2) 1 1); cbn; [right; left; reflexivity|lia|lia|reflexivity].
+    + apply (reach_root edges_spec _ [1] 1 (OString 8)); [left; reflexivity|reflexivity].
 Qed.
 
 (* the historical root list lacked exactly the running closures *)
@@ -159,20 +184,21 @@ Proof. vm_compute. repeat split; reflexivity. Qed.
 
 (* a collection is invisible to the program: the part of the heap it can reach is the same set of
    indices holding the same objects, before and after *)
-Lemma vm_collect_invisible_lemma : forall s h s' h',
+Lemma vm_collect_invisible_lemma : forall s h s' h', frames_consistent s ->
   vm_collect s h = Some (s', h') ->
   (forall i, program_reachable s' h' i <-> program_reachable s h i)
   /\ (forall i, program_reachable s h i -> get h' i = get h i).
 Proof.
-  intros s h s' h' Hc. unfold vm_collect in Hc.
+  intros s h s' h' Hcons Hc. unfold vm_collect in Hc.
   destruct (collect h (collect_roots s)) as [h2|] eqn:Hc2; [|discriminate].
   injection Hc as <- <-.
   destruct (reach_after_collect edges_code h (collect_roots s) h2 Hc2) as [Hiff Hsame].
   assert (Hcs : forall hh i, reachable_spec hh (collect_roots s) i <-> reachable_code hh (collect_roots s) i)
     by (intros hh i; symmetry; apply reach_code_iff_spec).
   split.
-  - intro i. rewrite !program_reachable_iff. unfold collect_roots at 1. cbn [v_registers v_frames v_globals
+  - intro i. rewrite (program_reachable_iff s h i Hcons).
+    rewrite program_reachable_iff by (intros f Hf; exact (Hcons f Hf)). unfold collect_roots at 1. cbn [v_registers v_frames v_globals
       v_globals_by_index v_open_upvalues v_current_upvalues]. fold (collect_roots s).
     rewrite !Hcs. apply Hiff.
-  - intros i Hp. apply Hsame. apply Hcs. apply program_reachable_iff. exact Hp.
+  - intros i Hp. apply Hsame. apply Hcs. apply program_reachable_iff; assumption.
 Qed.
